@@ -241,10 +241,13 @@ DoRet(s, e) ==
             LET seen == ToSet(Get(s.rv, e.p, <<>>))
                 live == {k \in KeyDom : s.mp[k] # 0 /\ (En(s, s.mp[k]).dl = 0 \/ En(s, s.mp[k]).dl > c.t)}
                 clean == ~Get(s.rdirty, e.p, TRUE) /\ c.k = 0 /\ ~s.closed
-            IN Vif(s0, clean /\ seen # live, "C16", "range_did_not_visit_exactly_the_resident_keys")
+                \* a closed cache holds nothing: a Range begun after Close returned visits nothing
+                a == Vif(s0, c.ac /\ seen # {}, "C16", "range_visits_entries_of_closed_cache")
+            IN Vif(a, clean /\ seen # live, "C16", "range_did_not_visit_exactly_the_resident_keys")
        [] e.op = "len" ->
             LET quiet == \A q \in DOMAIN s.pc : q = e.p \/ s.pc[q].op = "none" IN
-            Vif(s0, quiet /\ ~Get(s.rdirty, e.p, TRUE) /\ ~s.closed /\ e.n # Cardinality({k \in KeyDom : s.mp[k] # 0}), "C16", "len_differs_from_resident_count")
+            Vif(Vif(s0, c.ac /\ e.n # 0, "C16", "len_nonzero_after_close"),
+                quiet /\ ~Get(s.rdirty, e.p, TRUE) /\ ~s.closed /\ e.n # Cardinality({k \in KeyDom : s.mp[k] # 0}), "C16", "len_differs_from_resident_count")
        [] e.op = "close" -> [s0 EXCEPT !.closedDone = TRUE]
        [] OTHER -> s0
 
